@@ -222,6 +222,15 @@ impl Sys {
         self.apis.push(ApiCall { what: "send_ping".into(), node: Some(i), target: None, started: self.w.now(), handle: Some(h), done: None, payload: vec![] });
     }
 
+    /// The user knows node `i` only by public key and socket (a multiaddr) and asks for its record.
+    pub fn api_request_enr(&mut self, i: usize) {
+        let pk = self.w.nodes[i].sim.ident.public().to_encoded_point(true).as_bytes().to_vec();
+        let ma = crate::util::multiaddr_of(&pk, &self.w.nodes[i].sim.addr());
+        let fut = self.w.discv5.request_enr(ma.clone());
+        let h = tokio::spawn(async move { ApiOut::Nodes(fut.await.map(|e| vec![e]).map_err(|e| format!("{e:?}"))) });
+        self.apis.push(ApiCall { what: format!("request_enr {ma}"), node: Some(i), target: None, started: self.w.now(), handle: Some(h), done: None, payload: vec![] });
+    }
+
     pub fn api_find_designated(&mut self, i: usize, distances: Vec<u64>) {
         let fut = self.w.discv5.find_node_designated_peer(self.w.enr(i), distances.clone());
         let h = tokio::spawn(async move { ApiOut::Nodes(fut.await.map_err(|e| format!("{e:?}"))) });
@@ -1218,7 +1227,28 @@ pub fn attack(seed: u64, rep: &mut Report) {
         let mut attacker_keys: Vec<KeyGen> = Vec::new();
         let mut strategies: Vec<String> = Vec::new();
         let rounds = 1 + rng.usize(4);
-        for _ in 0..rounds {
+        for round in 0..rounds {
+            if rng.chance(1, 4) {
+                // a node the user knows only by key and socket (a multiaddr) is asked for its
+                // record; it completes the handshake as itself and hands out X's genuine record
+                let l_addr = v4(10, 66, 7, 1 + round as u8, 6700 + round as u16);
+                let l = s.w.add_node(l_addr, EnrAddr::Socket(l_addr), 1);
+                let own = s.w.nodes[l].sim.ident.record_bytes();
+                let xr = rlp_ref::encode_record(&x_enr);
+                let (list, shape) = match rng.below(4) {
+                    0 => (vec![xr], "X's record"),
+                    1 => (vec![own, xr], "its own record, then X's"),
+                    2 => (vec![xr, own], "X's record, then its own"),
+                    _ => (vec![xr.clone(), xr], "X's record twice"),
+                };
+                s.w.nodes[l].b.own_records_list = Some(list);
+                s.w.nodes[l].b.records_per_packet = *rng.pick(&[1usize, 3]);
+                strategies.push(format!("a node dialled by key and socket answers the record request with {shape}"));
+                s.api_request_enr(l);
+                s.advance(Duration::from_millis(100 + rng.below(1500)), rep).await;
+                rep.count("sys_attack_liars_dialled_by_key");
+                continue;
+            }
             let src = if rng.chance(1, 3) { x_addr } else { m_addr };
             let rec = *rng.pick(&[Rec::None, Rec::OwnLower, Rec::OwnEqual, Rec::OwnHigher, Rec::OwnHigher, Rec::GenuineX, Rec::OwnAtXAddr]);
             let passive = rng.chance(1, 4);
@@ -1358,6 +1388,7 @@ pub fn attack(seed: u64, rep: &mut Report) {
                     s.flag(rep, Focus::C01, "C01:table-entry-for-X-without-proof", "X's entry became connected although X's key holder sent nothing".into(), w.clone());
                 }
             }
+            (Some(_), None) => s.flag(rep, Focus::C01, "C01:table-entry-for-X-without-proof", "X was removed from the routing table although X's key holder sent nothing and the user removed nothing".into(), w.clone()),
             _ => {}
         }
         // traffic the attacker could read: anything sent after t0 that opens under keys the
